@@ -54,7 +54,7 @@ class Expr:
     def local(self, l, depth=0):
         if l in self.size_locals:
             return ("size",)
-        if depth > 14:
+        if depth > 60:
             return ("?",)
         ds = self.defs.whole_defs(l)
         if len(ds) != 1 or ds[0][0] != "stmt":
@@ -386,6 +386,9 @@ def run(tier="quick", replay=None):
             "reader's literal classes no longer mirror the writer's (0x80 -> empty atom: %s, <= 0x7F -> one-byte atom: %s)" % (lit80, lit7f),
             fn=READER)
 
+    # ---------------- R08.d byte order of the integer conversion used for sizes ----------------------
+    check_byte_order(prog, R)
+
     # ---------------- R08.c pre-order ------------------------------------------------------------
     it_fam = prog.family(ITER_NEXT)
     found = False
@@ -419,3 +422,96 @@ def run(tier="quick", replay=None):
     if not found:
         R.viol("R08.c", "R08.c|anchor-lost|pair-arm", ITER_NEXT, "anchor lost: the Pair arm of the serialising iterator")
     return R.finalize()
+
+
+class ByteExpr(Expr):
+    """Expr whose leaves may also be bytes of an indexed slice parameter: `v[n + k]` -> ('byte', k)."""
+
+    def __init__(self, fn, n_param, v_param=None):
+        Expr.__init__(self, fn, set())
+        self.n_param = n_param
+        self.v_param = v_param
+
+    def local(self, l, depth=0):
+        if l == self.n_param:
+            return ("c", 0)           # offsets are measured relative to n
+        if self.v_param is not None and l == self.v_param:
+            return ("size",)          # reuse the variable leaf for the u32 being stored
+        if depth > 60:
+            return ("?",)
+        ds = self.defs.whole_defs(l)
+        if len(ds) == 1 and ds[0][0] == "stmt":
+            rv = ds[0][3]["rv"]
+            if rv["k"] == "use":
+                p = op_place(rv["op"])
+                if p is not None:
+                    idx = [e for e in p["p"] if isinstance(e, dict) and "idx" in e]
+                    if idx:
+                        off = ev(self.local(idx[0]["idx"], depth + 1), 0)
+                        return ("byte", off)
+        return Expr.local(self, l, depth)
+
+
+def evb(e, size, bytes_):
+    if e[0] == "byte":
+        return bytes_.get(e[1])
+    if e[0] in ("c", "size", "?"):
+        return ev(e, size)
+    if e[0] == "cast":
+        v = evb(e[2], size, bytes_)
+        if v is None:
+            return None
+        w = WIDTH.get(e[1])
+        return v & ((1 << w) - 1) if w else v
+    a, b = evb(e[1], size, bytes_), evb(e[2], size, bytes_)
+    if a is None or b is None:
+        return None
+    return ev((e[0], ("c", a), ("c", b)), size)
+
+
+def check_byte_order(prog, R):
+    """Sibling rule: the 32-bit reader used when decoding length prefixes (get_u32) and its writer twin (set_u32)
+    must both be big-endian, the order in which the serialiser emits the size bytes."""
+    g = prog.fn("classic::clvm::__type_compatibility__::get_u32")
+    s = prog.fn("classic::clvm::__type_compatibility__::set_u32")
+    conv = prog.fn("classic::clvm::casts::int_from_bytes")
+    rd = prog.family(READER)
+    uses_conv = any(callee_of(t) == "classic::clvm::casts::int_from_bytes" for f in rd for _, t in f.calls())
+    uses_get = conv is not None and any(callee_of(t) == "classic::clvm::__type_compatibility__::get_u32" for _, t in conv.calls())
+    if not (uses_conv and uses_get) or g is None:
+        R.info("reader no longer decodes sizes through int_from_bytes/get_u32; byte-order sibling rule not applicable")
+        return
+    sample = {0: 0x11, 1: 0x22, 2: 0x33, 3: 0x44}
+    be = 0x11223344
+    ge = ByteExpr(g, 2)
+    rets = [st for _, _, st in g.stmts() if st["pl"]["l"] == 0 and not st["pl"]["p"]]
+    val = None
+    if len(rets) == 1:
+        e = ge.rv_expr(rets[0]["rv"]) if hasattr(ge, "rv_expr") else None
+        rv = rets[0]["rv"]
+        if rv["k"] == "bin":
+            e = (rv["op"].replace("WithOverflow", ""), ge.operand(rv["a"]), ge.operand(rv["b"]))
+        elif rv["k"] == "use":
+            e = ge.operand(rv["op"])
+        val = evb(e, 0, sample) if e else None
+    R.check(val == be, "R08.d", "R08.d|get_u32-big-endian", "%s:%s" % (g.file, g.line),
+            "auto: get_u32([11 22 33 44]) evaluates symbolically to 0x11223344 (most significant byte first, like the writer's "
+            "size bytes)",
+            "get_u32 assembles bytes 11 22 33 44 into %s instead of 0x11223344: length prefixes of four and more size bytes "
+            "(atoms >= 1 MiB) and every >= 4-byte integer conversion are decoded wrongly" % (hex(val) if val is not None else "?"),
+            fn=g.path)
+    if s is not None:
+        se = ByteExpr(s, 2, v_param=3)
+        written = {}
+        for bb, i, st in s.stmts():
+            idx = [e for e in st["pl"]["p"] if isinstance(e, dict) and "idx" in e]
+            if idx and st["pl"]["l"] == 1:
+                off = ev(se.local(idx[0]["idx"]), 0)
+                rv = st["rv"]
+                e = ("cast", rv["ty"], se.operand(rv["op"])) if rv["k"] == "cast" else se.operand(rv["op"]) if rv["k"] == "use" else ("?",)
+                written[off] = ev(e, be)
+        want = {0: 0x11, 1: 0x22, 2: 0x33, 3: 0x44}
+        R.check(written == want, "R08.d", "R08.d|set_u32-inverse-of-get_u32", "%s:%s" % (s.file, s.line),
+                "auto: set_u32(0x11223344) writes 11 22 33 44 — the inverse of get_u32",
+                "set_u32 and get_u32 disagree on byte order: set_u32(0x11223344) writes %s" % (
+                    {k: hex(v) if v is not None else None for k, v in sorted(written.items(), key=lambda x: str(x[0]))}), fn=s.path)
